@@ -28,8 +28,8 @@ m = {
         "guard": "--cfg lance_verif",
         "enable": "rustflags = [\"--cfg\", \"lance_verif\"] in /verif/sim/.cargo/config.toml (the simulator crate depends on /repo/rust/* by path); nothing in /repo sets it",
         "baseline_off_cmd": "cd /repo && cargo nextest run --workspace --no-fail-fast --offline || cargo test --workspace --no-fail-fast --offline",
-        "source_commits": ["4bc49fe"],
-        "add_only": True,
+        "source_commits": ["4bc49fe", "270b71c"],
+        "add_only": True,  # 4bc49fe adds a cfg(lance_verif) variant of spawn_cpu plus one cfg(not(lance_verif)) attribute line; 270b71c adds cfg-guarded statements only
     },
     "engines": [
         {"name": "lancesim", "path": "/verif/sim", "serves_properties": sorted(REGISTERED), "kind_free_text": "single-process deterministic simulator: real lance code for every party on one paused tokio runtime; simulated object store / external manifest store / lock service / clock / OS randomness; seeded scheduler at the storage gate; fault plan"},
